@@ -58,7 +58,7 @@ package denco
 //@ spec wf(da) := da != nil && 2 <= len(da.bc) && len(da.bc) < 4294967296 && 1 <= len(da.node) && reach(da, 1) && pdepth(da, 1) == 0 && wfEdges(da) && wfWild(da) && wfSingle(da)
 //@ spec wfEdges(da) := forall k int, c int @pat(edgeK(da, k, c)) :: inCells(da, k) && reach(da, k - offof(da.bc)) && 1 <= c && c < 256 && edgeK(da, k, c) < len(da.bc) && Check(da.bc[edgeK(da, k, c)]) == c ==> (c != 42 && c != 35 ==> reach(da, edgeK(da, k, c))) && (c != 58 && c != 42 && c != 35 ==> pdepth(da, edgeK(da, k, c)) == pdepth(da, k - offof(da.bc))) && (c == 58 ==> pdepth(da, edgeK(da, k, c)) == pdepth(da, k - offof(da.bc)) + 1) && (c == 35 ==> leafOK(da, edgeK(da, k, c), pdepth(da, k - offof(da.bc))))
 //@ spec leafOK(da, y, n) := Base(da.bc[y]) < len(da.node) && da.node[Base(da.bc[y])] != nil && len(da.node[Base(da.bc[y])].paramNames) == n
-//@ spec wfSingle(da) := forall k int @pat(IsSingleParam(cellAt(da, k))) :: inCells(da, k) && reach(da, k - offof(da.bc)) && IsSingleParam(cellAt(da, k)) && edgeK(da, k, 58) < len(da.bc) ==> Check(da.bc[edgeK(da, k, 58)]) == 58
+//@ spec wfSingle(da) := forall k int @pat(IsSingleParam(cellAt(da, k))) :: inCells(da, k) && reach(da, k - offof(da.bc)) && IsSingleParam(cellAt(da, k)) ==> edgeK(da, k, 58) < len(da.bc) && Check(da.bc[edgeK(da, k, 58)]) == 58
 //@ spec wfWild(da) := forall k int @pat(IsWildcardParam(cellAt(da, k))) :: inCells(da, k) && reach(da, k - offof(da.bc)) && IsWildcardParam(cellAt(da, k)) ==> edgeK(da, k, 42) < len(da.bc) && leafOK(da, edgeK(da, k, 42), pdepth(da, k - offof(da.bc)) + 1)
 
 //@ func (*doubleArray).lookup
@@ -66,6 +66,7 @@ package denco
 //@ requires wf(da) && 0 <= idx && idx < len(da.bc) && reach(da, idx) && len(params) == pdepth(da, idx)
 //@ ensures [C05:arity] result2 ==> result0 != nil && len(result1) == len(result0.paramNames)
 //@ ensures [C05:notfound] !result2 ==> result0 == nil && len(result1) == 0
+//@ ensures [C05:alltried] !result2 ==> j == -1
 //@ assigns comp:F!middleware/denco.Param!Name, comp:F!middleware/denco.Param!Value
 //@ loop 0 invariant 0 <= i && i <= len(path) && 0 <= idx && idx < len(da.bc) && reach(da, idx) && pdepth(da, idx) == len(params) && (indices == nil || fresh(indices)) && elems(da.bc) == old(elems(da.bc)) && elems(da.node) == old(elems(da.node))
 //@ loop 0 invariant forall j int :: 0 <= j && j < len(indices) ==> 0 <= indices[j] && ediv(indices[j], 4294967296) <= len(path) && emod(indices[j], 4294967296) < len(da.bc) && reach(da, emod(indices[j], 4294967296)) && pdepth(da, emod(indices[j], 4294967296)) == len(params)
